@@ -70,6 +70,32 @@ def forRangeFrom {α σ ρ : Type} (body : Int → α → σ → Ctl σ ρ) : In
     | .brk s' => .fin s'
     | .ret r => .ret r
 
+/-- how a fuel-bounded loop ends: like `Done`, or `out` = the fuel ran out before the loop ended -/
+inductive Loop (σ ρ : Type) where
+  | fin (s : σ)
+  | ret (r : ρ)
+  | out
+
+/-- `for ; cond; post { body }`: `step` tests the condition (`brk` when it fails) and runs the body;
+    `post` runs after a body that fell off its end or hit `continue`. One unit of fuel per iteration. -/
+def forLoop {σ ρ : Type} (step : σ → Ctl σ ρ) (post : σ → σ) : Nat → σ → Loop σ ρ
+  | 0, _ => .out
+  | fuel + 1, s =>
+    match step s with
+    | .next s' => forLoop step post fuel (post s')
+    | .brk s' => .fin s'
+    | .ret r => .ret r
+
+/-- `strconv.Atoi` on inputs too short to overflow (≤ 18 characters): optional sign, one or more
+    decimal digits. The error is the syntax error; the range error is not modelled. -/
+def atoi : Bytes → Int × Error
+  | 43 :: ds => match parseDec ds with
+    | some n => ((n : Nat), none) | none => (0, some "strconv.ErrSyntax")
+  | 45 :: ds => match parseDec ds with
+    | some n => (-((n : Nat) : Int), none) | none => (0, some "strconv.ErrSyntax")
+  | ds => match parseDec ds with
+    | some n => ((n : Nat), none) | none => (0, some "strconv.ErrSyntax")
+
 def forRange {α σ ρ : Type} (xs : List α) (s : σ) (body : Int → α → σ → Ctl σ ρ) : Done σ ρ :=
   forRangeFrom body 0 xs s
 
